@@ -359,4 +359,147 @@ theorem issueAgainst_eq_some {L k : Nat} {s : SL} {A w : Acc} (h : issueAgainst 
     · cases b <;> simp at h <;> obtain ⟨h1, h2⟩ := h <;> subst h1 h2 <;>
         exact ⟨by omega, by omega, by simp⟩
 
+/-! ### accumulator entries of reachable lists -/
+
+theorem getElem?_of_reachable_lt {L : Nat} {bd : Bool} {s : SL} (h : Reachable L bd s) {j : Nat}
+    (hj : j < L) : ∃ b, s.bits[j]? = some b := by
+  have := reachable_length h
+  exact ⟨s.bits[j], List.getElem?_eq_getElem (by omega)⟩
+
+theorem getElem?_of_reachable_ge {L : Nat} {bd : Bool} {s : SL} (h : Reachable L bd s) {j : Nat}
+    (hj : L ≤ j) : s.bits[j]? = none := by
+  have := reachable_length h
+  simp; omega
+
+theorem lt_of_reachable_getElem? {L : Nat} {bd : Bool} {s : SL} (h : Reachable L bd s) {j : Nat} {b : Bool}
+    (hb : s.bits[j]? = some b) : j < L := by
+  have := reachable_length h
+  have := (List.getElem?_eq_some_iff.mp hb).1
+  omega
+
+/-- a valid (non-revoked) credential index has multiplicity 1 -/
+theorem reachable_acc_valid_idx {L : Nat} {bd : Bool} {s : SL} (h : Reachable L bd s) {k : Nat}
+    (hb : s.bits[k]? = some false) (hk : 1 ≤ k) : s.acc k = 1 := by
+  have hlt := lt_of_reachable_getElem? h hb
+  rw [reachable_acc h]
+  cases bd
+  · rw [accOf_onDemand]; simp [hb]
+  · rw [accOf_byDefault]
+    have : 1 ≤ k ∧ k ≤ L := by omega
+    simp [hb, this]
+
+/-- a revoked position has multiplicity 0 or -1, never 1 -/
+theorem reachable_acc_revoked_idx {L : Nat} {bd : Bool} {s : SL} (h : Reachable L bd s) {k : Nat}
+    (hb : s.bits[k]? = some true) : s.acc k ≤ 0 := by
+  rw [reachable_acc h]
+  cases bd
+  · rw [accOf_onDemand]; simp [hb]
+  · rw [accOf_byDefault]; simp [hb]; split <;> omega
+
+/-- difference of the accumulators of two lists of the same registry, entry by entry:
+exactly the index deltas of the two bit lists -/
+theorem reachable_acc_diff {L : Nat} {bd : Bool} {s t : SL} (hs : Reachable L bd s) (ht : Reachable L bd t)
+    (j : Nat) :
+    t.acc j = s.acc j + (if t.bits[j]? = some false ∧ s.bits[j]? = some true then 1 else 0)
+                      - (if t.bits[j]? = some true ∧ s.bits[j]? ≠ some true then 1 else 0) := by
+  rw [reachable_acc hs, reachable_acc ht]
+  by_cases hj : j < L
+  · obtain ⟨a, ha⟩ := getElem?_of_reachable_lt hs hj
+    obtain ⟨b, hb⟩ := getElem?_of_reachable_lt ht hj
+    simp only [accOf, ha, hb]
+    cases a <;> cases b <;> cases bd <;> simp <;> omega
+  · have ha := getElem?_of_reachable_ge hs (j := j) (by omega)
+    have hb := getElem?_of_reachable_ge ht (j := j) (by omega)
+    simp [accOf, ha, hb]
+
+/-! ### `w_k = 0` for every derivation; link to the pairing equation -/
+
+/-- Under `w_k = 0` the trusted-base definition of `WitnessValid` is the pairing
+equation `e(g_k, acc) / e(g, ω) = z` read coefficient-wise:
+`A_j - w_j = [j = k]` for all `j`. -/
+theorem witnessValid_iff_pairing {k : Nat} {A w : Acc} (hk : w k = 0) :
+    WitnessValid k A w ↔ ∀ j, A j - w j = if j = k then 1 else 0 := by
+  constructor
+  · rintro ⟨h1, h2⟩ j
+    by_cases hj : j = k
+    · subst hj; simp [h1, hk]
+    · simp [hj, h2 j hj]
+  · intro h
+    refine ⟨?_, fun j hj => ?_⟩
+    · have := h k; simp [hk] at this; exact this
+    · have := h j; simp [hj] at this; omega
+
+theorem wk_zero_scratch {L k : Nat} {s : SL} {w : Acc} (h : witnessScratch L s k = some w) : w k = 0 := by
+  obtain ⟨_, _, _, rfl⟩ := witnessScratch_eq_some.mp h
+  simp [scratchVec]
+
+theorem wk_update {L k : Nat} {w w' : Acc} {old new : SL} (h : witnessUpdate L w old new k = some w') :
+    w' k = w k := by
+  have := (witnessUpdate_eq_some h).2.2.2 k
+  simpa using this
+
+theorem wk_zero_issue {L : Nat} {bd : Bool} {s : SL} (hr : Reachable L bd s) {k : Nat} {A w : Acc}
+    (h : issueAgainst L s k = some (A, w)) : w k = 0 := by
+  obtain ⟨hk1, _, ⟨hb, _, hw⟩ | ⟨hb, _, hw⟩⟩ := issueAgainst_eq_some h
+  · subst hw
+    have h1 := reachable_acc_revoked_idx hr hb
+    -- multiplicity is 0, not -1, because k ≥ 1
+    rw [reachable_acc hr] at h1 ⊢
+    have hlt := lt_of_reachable_getElem? hr hb
+    cases bd
+    · rw [accOf_onDemand]; simp [hb]
+    · rw [accOf_byDefault]
+      have : 1 ≤ k ∧ k ≤ L := by omega
+      simp [hb, this]
+  · subst hw
+    have := reachable_acc_valid_idx hr hb hk1
+    simp [accAdd, this]
+
+/-! ### supports of derived witnesses -/
+
+theorem supp_scratch {L k : Nat} {s : SL} {w : Acc} (h : witnessScratch L s k = some w) :
+    Supp (L + 1) w := by
+  obtain ⟨_, _, _, rfl⟩ := witnessScratch_eq_some.mp h
+  intro j hj
+  have : ¬ (j ≠ k ∧ 1 ≤ j ∧ j ≤ L ∧ s.bits[j]? ≠ some true) := by omega
+  simp only [scratchVec, this, if_false]
+
+theorem supp_witnessUpdate {L k : Nat} {w w' : Acc} {old new : SL}
+    (h : witnessUpdate L w old new k = some w') (hw : Supp (L + 1) w) (hlen : new.bits.length ≤ L) :
+    Supp (L + 1) w' := by
+  intro j hj
+  have hn : new.bits[j]? = none := by simp; omega
+  rw [(witnessUpdate_eq_some h).2.2.2 j, hw j hj]
+  simp [hn]
+
+theorem supp_issue {L : Nat} {bd : Bool} {s : SL} (hr : Reachable L bd s) {k : Nat} {A w : Acc}
+    (h : issueAgainst L s k = some (A, w)) : Supp (L + 1) A ∧ Supp (L + 1) w := by
+  have hs := reachable_supp hr
+  obtain ⟨_, hkL, ⟨_, hA, hw⟩ | ⟨_, hA, hw⟩⟩ := issueAgainst_eq_some h <;> subst hA hw
+  · exact ⟨supp_accAdd _ hs (by omega), hs⟩
+  · exact ⟨hs, supp_accAdd _ hs (by omega)⟩
+
+/-! ### recorded histories -/
+
+theorem runFrom_append_take (s : SL) (ops more : List Op) :
+    (runFrom s (ops ++ more)).take (ops.length + 1) = runFrom s ops := by
+  induction ops generalizing s with
+  | nil => cases more <;> simp [runFrom]
+  | cons op ops ih => simp [runFrom, ih]
+
+theorem length_runFrom (s : SL) (ops : List Op) : (runFrom s ops).length = ops.length + 1 := by
+  induction ops generalizing s with
+  | nil => rfl
+  | cons op ops ih => simp [runFrom, ih]
+
+/-- a state recorded for a history is still recorded, at the same place, for every
+extension of the history -/
+theorem getElem?_runFrom_append {s : SL} {ops : List Op} {i : Nat} {t : SL}
+    (h : (runFrom s ops)[i]? = some t) (more : List Op) : (runFrom s (ops ++ more))[i]? = some t := by
+  have hi : i < ops.length + 1 := by
+    have := (List.getElem?_eq_some_iff.mp h).1
+    rwa [length_runFrom] at this
+  rw [← runFrom_append_take s ops more, List.getElem?_take] at h
+  simpa [hi] using h
+
 end AnonModel.StatusList
